@@ -38,8 +38,14 @@ pub struct Barrier {
 
 // The inner state of a double barrier
 struct BarrierState {
+    #[cfg(not(may_verif))]
     count: usize,
+    #[cfg(may_verif)]
+    count: crate::verif::Counted,
+    #[cfg(not(may_verif))]
     generation_id: usize,
+    #[cfg(may_verif)]
+    generation_id: crate::verif::Counted,
 }
 
 /// A `BarrierWaitResult` is returned by [`Barrier::wait()`] when all threads
@@ -81,8 +87,14 @@ impl Barrier {
     pub fn new(n: usize) -> Barrier {
         Barrier {
             lock: Mutex::new(BarrierState {
+                #[cfg(not(may_verif))]
                 count: 0,
+                #[cfg(may_verif)]
+                count: crate::verif::Counted::new(0),
+                #[cfg(not(may_verif))]
                 generation_id: 0,
+                #[cfg(may_verif)]
+                generation_id: crate::verif::Counted::new(0),
             }),
             cvar: Condvar::new(),
             num_threads: n,
@@ -126,7 +138,10 @@ impl Barrier {
     /// ```
     pub fn wait(&self) -> BarrierWaitResult {
         let mut lock = self.lock.lock().unwrap();
+        #[cfg(not(may_verif))]
         let local_gen = lock.generation_id;
+        #[cfg(may_verif)]
+        let local_gen = lock.generation_id.seen();
         lock.count += 1;
         if lock.count < self.num_threads {
             let _guard = self
@@ -135,8 +150,16 @@ impl Barrier {
                 .unwrap();
             BarrierWaitResult(false)
         } else {
+            #[cfg(not(may_verif))]
+            {
             lock.count = 0;
             lock.generation_id = lock.generation_id.wrapping_add(1);
+            }
+            #[cfg(may_verif)]
+            {
+                lock.count.set(0);
+                lock.generation_id.wrapping_inc(1);
+            }
             self.cvar.notify_all();
             BarrierWaitResult(true)
         }
